@@ -180,6 +180,15 @@ func NewRunner(rec *Recorder) *Runner {
 	return r
 }
 
+// useUp modifies a drawn slice in place, as a check that sorts or consumes its value would.
+func useUp(v any) {
+	if p, ok := v.([]any); ok {
+		for i, j := 0, len(p)-1; i < j; i, j = i+1, j-1 {
+			p[i], p[j] = p[j], p[i]
+		}
+	}
+}
+
 // keptValue: a drawn value and what it looked like when it was drawn (a value belongs to the test case that drew it: nothing the
 // library does later -- further draws, other generators -- may change it)
 type keptValue struct {
@@ -393,8 +402,11 @@ func (in *inv) step(op *Op) {
 			in.vars[op.Var] = v
 		}
 		f := F{"inv": in.id, "label": op.Label, "val": fmtVal(v), "dval": deepVal(v), "gen": b.Desc}
+		if b.Desc == "Permutation" {
+			useUp(v) // the check does with its value what it likes (here: reverses it in place); the generator must not notice
+		}
 		if r.rec.Wants("contract") && in.kept != nil {
-			*in.kept = append(*in.kept, keptValue{op.Label, b.Desc, v, f["dval"].(string)})
+			*in.kept = append(*in.kept, keptValue{op.Label, b.Desc, v, deepVal(v)})
 		}
 		if r.rec.Wants("contract") && !(r.rec.Wants("final-contracts-only") && CurPhase.Load() != "final") {
 			c := b.Check(v)
